@@ -81,6 +81,17 @@ StepBlock(e) ==
         ELSE IF ~accepted /\ RowIds(p) # S!Ids(chainT) THEN "C09:rejected_block_changed_the_store"
         ELSE IF ~accepted /\ (\E q \in DOMAIN p.out : BlockMsgs(p, q, b.id) # 0) THEN "C09:rejected_block_relayed"
         ELSE ""
+      \* C05 on the delivery path: a relayed block that entered the chain state satisfies every header rule, judged with the node's clock
+      c5 ==
+        IF "C05" \notin Focus \/ ~relay \/ ~accepted \/ b.parent \notin pre \/ b.height <= Horizon THEN ""
+        ELSE IF ~b.powok THEN "C05:id_not_below_target"
+        ELSE IF ~(LET et == ExpectedTarget(blocks, byHeight, b.parent, b.ts) IN et.ok /\ b.target = et.t) THEN "C05:target_not_as_prescribed"
+        ELSE IF b.height # blocks[b.parent].height + 1 THEN "C05:height_not_parent_plus_one"
+        ELSE IF ~(Len(b.txs) >= 1 /\ Len(b.txs[1].ins) >= 1 /\ b.txs[1].ins[1].cbh = b.height) THEN "C05:reward_height_differs"
+        ELSE IF ~(blocks[b.parent].ts < b.ts) THEN "C05:timestamp_not_after_parent"
+        ELSE IF ~(b.ts <= e.now + MaxFuture) THEN "C05:timestamp_too_far_in_future"
+        ELSE IF ~b.evok THEN "C05:evidence_not_as_recomputed"
+        ELSE ""
   IN \* the spec state follows the *implementation's* outcome where that outcome is explainable
      /\ UNCHANGED << miner, tid >>
      /\ txd' = txd
@@ -113,7 +124,7 @@ StepBlock(e) ==
                      ELSE IF p.head # FirstSeenBest(blocks', order') THEN "C04:head_not_first_seen_of_greatest_height"
                      ELSE IF SetOf(p.tips) # Childless(blocks') THEN "C04:tips_not_exactly_childless_blocks"
                      ELSE ""
-               c == IF c9 # "" THEN c9 ELSE IF c4 # "" THEN c4 ELSE c13
+               c == IF c9 # "" THEN c9 ELSE IF c5 # "" THEN c5 ELSE IF c4 # "" THEN c4 ELSE c13
            IN /\ DriftIf((br \in {"accept", "accept_unvalidated"}) # accepted, "block accepted/refused differs from Node!Branch = " \o br)
               /\ DriftIf(RowIds(p) # S!Ids(chainT'), "store rows differ from Node/Store model")
               /\ DriftIf(SetOf(p.buffer) # {buffer'[k].id : k \in 1..Len(buffer')}, "write buffer differs from Node/Store model")
